@@ -312,6 +312,10 @@ def gen_fixed_cases(rng, n_draws, ns):
             if name == "Weibull" and truth["beta"] < 1.3 and "gamma" not in fixed:
                 # free location with a shape near 1: the likelihood is unbounded (known input class, see known findings)
                 fixed = sorted(set(fixed[: max(0, len(pars) - 2)]) | {"gamma"})
+            # a parameter fixed at exactly 0 (falsy in Python) where the family admits it
+            zero_ok = {"LogNormal": "mu", "Normal": "mu", "Weibull": "gamma", "ScipyGamma": "loc"}.get(name)
+            if zero_ok in fixed and rng.integers(0, 3) == 0:
+                truth[zero_ok] = 0.0
             n = int(rng.choice(ns))
             yield {"part": "C", "family": name, "truth": truth, "n": n, "seed": int(rng.integers(0, 2 ** 31)),
                    "start_kind": "fixed", "fixed": fixed, "aux_seed": int(rng.integers(0, 2 ** 31))}
